@@ -33,6 +33,7 @@ import (
 	"wa-lang.org/wa/internal/types"
 	"wa-lang.org/wa/internal/zz_verif/astdump"
 	"wa-lang.org/wa/internal/zz_verif/vh"
+	"wa-lang.org/wa/internal/zz_verif/vhx"
 )
 
 type kwRow struct {
@@ -393,7 +394,7 @@ func main() {
 		tables(os.Args[2])
 		return
 	}
-	vh.Loop(func(f []string, line string) string {
+	vhx.Loop(func(f []string, line string) string {
 		if len(f) != 3 {
 			return "bad-op"
 		}
